@@ -4,8 +4,8 @@
 //                       back as the engine's total force in the same-step convention
 //   hidej name          enable the feature hide_Jacobian_force of a variable, exactly as the ABF option
 //                       hideJacobian does (colvarbias_abf.cpp: colvars[i]->enable(f_cv_hide_Jacobian))
-//   rot name            print "ROT name i type m00..m22 jd" for every component of the variable: the optimal rotation
-//                       matrix of its first atom group and its Jacobian derivative (inputs of the model for rotated frames)
+//   rot name            print "ROT name i type q0 q1 q2 q3 jd" for every component of the variable: the optimal rotation
+//                       quaternion of its first atom group and its Jacobian derivative (inputs of the model for rotated frames)
 //   fj                  print "FJ name <hex>" (Jacobian force kT*jd held by each variable) and
 //                       "FOLD name <hex>" (f_old), read from the variable's private members
 #include <cstdio>
@@ -59,11 +59,9 @@ struct c07_session : public vsim_session {
       colvar *c = cvm::colvar_by_name(a[0]);
       if (c) {
         for (size_t i = 0; i < c->cvcs.size(); i++) {
-          cvm::rmatrix const m = c->cvcs[i]->atom_groups.size() ? c->cvcs[i]->atom_groups[0]->rot.matrix() : cvm::rmatrix();
+          cvm::quaternion const q = c->cvcs[i]->atom_groups.size() ? c->cvcs[i]->atom_groups[0]->rot.q : cvm::quaternion(1.0, 0.0, 0.0, 0.0);
           o << "ROT " << c->name << " " << i << " " << c->cvcs[i]->function_type();
-          o << " " << vs_hex(m.xx) << " " << vs_hex(m.xy) << " " << vs_hex(m.xz)
-            << " " << vs_hex(m.yx) << " " << vs_hex(m.yy) << " " << vs_hex(m.yz)
-            << " " << vs_hex(m.zx) << " " << vs_hex(m.zy) << " " << vs_hex(m.zz)
+          o << " " << vs_hex(q.q0) << " " << vs_hex(q.q1) << " " << vs_hex(q.q2) << " " << vs_hex(q.q3)
             << " " << vs_hex(c->cvcs[i]->Jacobian_derivative().real_value) << "\n";
         }
       }
